@@ -5,7 +5,7 @@
    the links that are not (fully) proved, so the theorem's own type says what is missing:
      H_fun2core   Fun -> Core preserves behaviour on the guarded domain   (proved for the first-order
                   integer fragment: C02_fun2core_correct_partial; unguarded statement REFUTED: call of main; capture before
-                  fix <commitcap> of fun2core)
+                  fix d5d4151 of fun2core)
      H_focus      focusing preserves Core behaviour                        (proved for straight-line integer
                   code: C03_focus_preserves_partial)
      H_shrink     shrinking preserves behaviour                            (proved for the first-order integer
@@ -68,7 +68,7 @@ Print Assumptions C01_compile_correct_partial.
 (* COROLLARY with the Fun -> Core link DISCHARGED for the language without codata (C02_fun2core_correct_fragment2):
    for programs inside [prog_guard] (every definition in the fragment [frag] - all term forms except
    new/destructors/by-name bindings and calls of main -, well-scoped [ws]; NO capture guard since the repair
-   <commitcap> of fun2core: shadowing binders are allowed) only the focusing, shrinking and code
+   d5d4151 of fun2core: shadowing binders are allowed) only the focusing, shrinking and code
    generation links remain hypotheses.  NOTE: H_fun2core as stated above (guard: barendregt only) is
    REFUTED by the known finding call-to-main (C02_fun2core_guarded_statement_refuted), so
    C01_compile_correct_partial holds vacuously in that hypothesis; this corollary does not need it. *)
